@@ -312,8 +312,32 @@ class Arr(object):
         if n_real != self.ndim:
             raise InterpIndexError('too many indices for array: array is %d-dimensional' % self.ndim)
         adv = [i for i in index if isinstance(i, Arr)]
+        for k, i in enumerate(index):
+            # a concrete 1-d boolean mask along one axis is the integer index array of its true positions
+            if isinstance(i, Arr) and i.ndim == 1 and i.items() and all(isinstance(v, bool) for v in i.items()):
+                index[k] = Arr((sum(1 for v in i.items() if v),), [p for p, v in enumerate(i.items()) if v], kind='i')
+        adv = [i for i in index if isinstance(i, Arr)]
         if any(isinstance(i, Arr) and i.items() and isinstance(i.items()[0], bool) for i in adv):
             raise AnalysisError('boolean mask indexing handled by caller')
+        if len(adv) == 1 and adv[0].ndim == 1 and all(isinstance(i, slice) or i is adv[0] for i in index) and \
+                not isinstance(index[0], Arr):
+            # slices and exactly one 1-d index array (not leading): its dimension stays in place
+            strides = _strides(self.shape)
+            ranges = []
+            for dim, i in enumerate(index):
+                n = self.shape[dim]
+                if isinstance(i, slice):
+                    ranges.append(list(range(*i.indices(n))))
+                else:
+                    lst = []
+                    for v in i.items():
+                        ii = _as_int(v)
+                        if ii < -n or ii >= n:
+                            raise InterpIndexError('index %d is out of bounds for axis %d with size %d' % (ii, dim, n))
+                        lst.append(ii % n)
+                    ranges.append(lst)
+            pos = [sum(c * strides[d] for d, c in enumerate(combo)) for combo in itertools.product(*ranges)]
+            return pos, tuple(len(r) for r in ranges)
         strides = _strides(self.shape)
         if not adv:
             axes_ranges, out_shape, dim = [], [], 0
@@ -388,10 +412,34 @@ class Arr(object):
             return Arr(shape, [d[self.pos[p]] for p in pos], kind=self.kind)
         return self.view(shape, [self.pos[p] for p in pos])
 
+    def _axis_mask(self, index):
+        """index = (:, .., mask, .., :) with one 1-d boolean (or undetermined) mask along one axis -> full-shape mask, else None"""
+        if not isinstance(index, tuple) or len(index) != self.ndim:
+            return None
+        axis = None
+        for k, i in enumerate(index):
+            if isinstance(i, slice) and i == slice(None):
+                continue
+            if isinstance(i, Arr) and i.ndim == 1 and i.size == self.shape[k] and i.size and axis is None and \
+                    all(isinstance(v, (bool, Unk)) for v in i.items()):
+                axis = k
+                continue
+            return None
+        if axis is None:
+            return None
+        m = index[axis].items()
+        strides = _strides(self.shape)
+        return Arr(self.shape, [m[(p // strides[axis]) % self.shape[axis]] for p in range(self.size)])
+
     def __setitem__(self, index, value):
         where = getattr(self, '_where', None)
         if self.kind == 'i':
             check_int_store(self, value)
+        full = self._axis_mask(index)
+        if full is not None:
+            if isinstance(value, Arr) and value.size > 1:
+                raise AnalysisError('array value stored through a mask along one axis')
+            index = full
         if isinstance(index, Arr) and index.size and all(isinstance(v, (bool, Unk)) for v in index.items()) \
                 and index.shape == self.shape:
             n_true = sum(1 for m in index.items() if m is True)
